@@ -52,7 +52,7 @@ func c02Body(tag string, kind string, withIndex bool, action string) *Block {
 	case "store":
 		// a store through $: visible to later rules of this pass, not to the pass of another selector or value
 		b.Stmts = append(b.Stmts, &If{C: &IsExpr{X: V("$"), T: "object"}, Then: Blk(asg(Mem(V("$"), "mark"), Bin("+", Mem(V("$"), "mark"), N("1")))),
-			Else: &If{C: Bin("&&", &IsExpr{X: V("$"), T: "array"}, Bin(">", Meth(V("$"), "length"), N("0"))), Then: Blk(asg(Idx(V("$"), N("0")), S("marked")))}}) // in range only: extending through one of two references is K-ALIAS
+			Else: &If{C: &IsExpr{X: V("$"), T: "array"}, Then: Blk(asg(Idx(V("$"), N("0")), S("marked")), ES(Meth(V("$"), "push", S("pushed"))))}}) // also extends an empty array: seen through every reference to it
 	}
 	return b
 }
